@@ -267,7 +267,8 @@ class Verdicts:
             print(f"DRIFT property={self.pid} {json.dumps(d, ensure_ascii=False)[:300]}")
         if not self.violations:
             return 0
-        os.makedirs(os.path.join(VERIF, "replays"), exist_ok=True)
+        rdir = os.environ.get("VERIF_REPLAY_DIR") or os.path.join(VERIF, "replays")
+        os.makedirs(rdir, exist_ok=True)
         seen = set()
         for sig, d in self.violations:
             if sig in seen:
@@ -276,7 +277,7 @@ class Verdicts:
             if len(seen) > 25:
                 break
             h = hashlib.sha1(sig.encode("utf-8")).hexdigest()[:12]
-            path = os.path.join(VERIF, "replays", f"{self.pid}-{h}.json")
+            path = os.path.join(rdir, f"{self.pid}-{h}.json")
             with open(path, "w", encoding="utf-8") as f:
                 json.dump(
                     {"property": self.pid, "signature": sig, "detail": d},
@@ -296,7 +297,8 @@ class Verdicts:
 
 
 def write_evidence(pid, tier_, t0, coverage, assumptions, violations, level="model_checking"):
-    os.makedirs(os.path.join(VERIF, "evidence"), exist_ok=True)
+    edir = os.environ.get("VERIF_EVIDENCE_DIR") or os.path.join(VERIF, "evidence")   # (seed sweeps write elsewhere)
+    os.makedirs(edir, exist_ok=True)
     ev = {
         "property_id": pid,
         "tier": tier_,
@@ -307,7 +309,7 @@ def write_evidence(pid, tier_, t0, coverage, assumptions, violations, level="mod
         "wall_s": round(time.time() - t0, 2),
         "violations": int(violations),
     }
-    path = os.path.join(VERIF, "evidence", f"{pid}.json")
+    path = os.path.join(edir, f"{pid}.json")
     tmp = path + ".tmp"
     with open(tmp, "w", encoding="utf-8") as f:
         json.dump(ev, f, ensure_ascii=False, indent=1, default=repr)
